@@ -543,6 +543,9 @@ class TorrentFileV2(MetaFile, ProgMixin):
             Metainformation about the torrent.
         """
         info = self.meta["info"]
+        # start over: assembling again must not keep an earlier result
+        self.piece_layers = {}
+        self.hashes = []
         if os.path.isfile(self.path):
             info["file tree"] = {info["name"]: self._traverse(self.path)}
             info["length"] = os.path.getsize(self.path)
